@@ -9,6 +9,7 @@ import (
 	"math/rand"
 	"os"
 	"runtime"
+	"strconv"
 	"sort"
 	"strings"
 	"sync"
@@ -40,9 +41,17 @@ func catalogue() []concOp {
 	var ops []concOp
 	docs := testdataDocs()
 	docs = append(docs, extraDocs(os.Getenv("VERIF_EXTRA_DOCS"))...)
-	for _, d := range docs {
+	every := 3
+	if v, err := strconv.Atoi(os.Getenv("VERIF_CONC_EVERY")); err == nil && v > 0 {
+		every = v
+	}
+	for di, d := range docs {
 		d := d
 		if len(d.Data) > 4000 {
+			continue
+		}
+		// the repository's samples and (quick tier) one generated document in three
+		if strings.HasPrefix(d.Name, "x:") && di%every != 0 {
 			continue
 		}
 		ops = append(ops, concOp{"read-" + d.Fmt + ":" + d.Name, func() concCall {
@@ -68,9 +77,13 @@ func catalogue() []concOp {
 		}
 		conv = append(conv, doc{Name: fmt.Sprintf("texts%d.srt", i), Fmt: "srt", Data: b.Bytes()})
 	}
-	for _, d := range conv {
+	for ci, d := range conv {
 		d := d
 		if len(d.Data) > 4000 {
+			continue
+		}
+		// every document is read concurrently (above); one generated document in eight is also converted
+		if strings.HasPrefix(d.Name, "x:") && ci%(8*every/3+1) != 0 {
 			continue
 		}
 		if _, err := readDoc(d.Fmt, bytes.NewReader(d.Data)); err != nil {
@@ -220,6 +233,7 @@ func cmdConc(args []string) error {
 	seed := fs.Int64("seed", 1, "seed")
 	free := fs.Int("free", 20, "free-running scenarios")
 	combos := fs.Int("combos", 6, "call combinations per schedule set")
+	rounds := fs.Int("rounds", 1, "homogeneous passes per kind of operation (each deals every operation of the kind to 16 goroutines)")
 	fs.Parse(args)
 	o, err := os.Create(*out)
 	if err != nil {
@@ -336,7 +350,7 @@ func cmdConc(args []string) error {
 	sort.Strings(kindNames)
 	homog := 0
 	if *free > 0 {
-		homog = len(kindNames)
+		homog = len(kindNames) * *rounds
 	}
 	for k := 0; k < *free+homog; k++ {
 		procs := []int{2, 4, 16}[k%3]
@@ -344,8 +358,41 @@ func cmdConc(args []string) error {
 		gor := 2 + r.Intn(31)
 		pool := ops
 		if k < homog {
-			pool = kinds[kindNames[k]]
-			gor = 12
+			// every operation of the kind, dealt out to 16 goroutines that each work through their share: the
+			// race detector reports two unsynchronised accesses whichever goroutines they come from, so every pair
+			// of documents of the kind that lands in different goroutines is examined
+			pool = kinds[kindNames[k%len(kindNames)]]
+			gor = 16
+			if len(pool) < gor {
+				gor = len(pool)
+			}
+			perm := r.Perm(len(pool))
+			calls := make([]concCall, len(pool))
+			for i, pi := range perm {
+				calls[i] = pool[pi].mk()
+			}
+			fpb := astisub.VerifTablesFingerprint()
+			res := make([]string, len(calls))
+			start := make(chan struct{})
+			var wg sync.WaitGroup
+			for g := 0; g < gor; g++ {
+				wg.Add(1)
+				go func(g int) {
+					defer wg.Done()
+					<-start
+					for i := g; i < len(calls); i += gor {
+						res[i] = calls[i].run()
+					}
+				}(g)
+			}
+			close(start)
+			wg.Wait()
+			runtime.GOMAXPROCS(old)
+			fpa := astisub.VerifTablesFingerprint()
+			for i := range calls {
+				put(concEvent{Mode: "free", Call: calls[i].label, Digest: res[i], Fpb: fpb, Fpa: fpa, Procs: procs, Gor: gor})
+			}
+			continue
 		}
 		calls := make([]concCall, gor)
 		for i := range calls {
